@@ -135,6 +135,7 @@ static void * bystander(void * a) {
 static void run(int tier, int prog) {
   build(); cur = &P[tier][prog];
   mv_start(cur->W);
+  h_maybe_custom_steal(prog, cur->W);
   h_mutex_init(&mtx, prog & 1);
   myth_thread_t th[3], by = 0;
   if (cur->bystander) by = myth_create(bystander, 0);
